@@ -23,52 +23,55 @@ CONSTANTS K, Chunk, TF, NMin,
           Modes,       \* subset of {"go", "open", "rel"}
           TwoRows,     \* TRUE: two-row entries are in the menu
           WrongSide,   \* TRUE: exits on the wrong side of the entry are in the menu (market replacement)
-          Edits        \* TRUE: update_position may move the stop-loss
+          Edits,       \* TRUE: update_position may move the stop-loss
+          Halves       \* TRUE: the take-profit may be declared for half of the size (partial exit -> reduced position)
 
 Pxs == 1..K
 Candles == {c \in [o : Pxs, c : Pxs, h : Pxs, l : Pxs] : c.l <= c.o /\ c.l <= c.c /\ c.o <= c.h /\ c.c <= c.h}
 
-VARIABLES m, pc, buf, row, prevC, sn, sf, winN, winF, hist
-vars == <<m, pc, buf, row, prevC, sn, sf, winN, winF, hist>>
-View == <<m, pc, buf, row, prevC, sn, sf>>
+VARIABLES m, pc, buf, row, prevC, sn, sf, winN, winF, hist,
+          liq       \* ghost: the last strategy step asked for liquidate() and for no new entry
+vars == <<m, pc, buf, row, prevC, sn, sf, winN, winF, hist, liq>>
+View == <<m, pc, buf, row, prevC, sn, sf, liq>>
 
 Init == /\ m = 0 /\ pc = "candle" /\ buf = <<>> /\ row = IdleRow /\ prevC = 0 /\ sn = Side0 /\ sf = Side0
-        /\ winN = <<>> /\ winF = <<>> /\ hist = <<>>
+        /\ winN = <<>> /\ winF = <<>> /\ hist = <<>> /\ liq = FALSE
 
 Boundary == (m + Chunk) % TF = 0
 \* one more minute of the chunk
 Candle(cd) == /\ pc = "candle" /\ m < NMin /\ Running(sn)
               /\ buf' = Append(buf, cd)
               /\ pc' = IF Len(buf) + 1 < Chunk THEN "candle" ELSE IF Boundary THEN "flags" ELSE "apply"
-              /\ UNCHANGED <<m, row, prevC, sn, sf, winN, winF, hist>>
+              /\ UNCHANGED <<m, row, prevC, sn, sf, winN, winF, hist, liq>>
 \* the decision row, component by component
 Flags(cancel, close, edit) ==
   /\ pc = "flags"
   /\ (edit # 0 => Edits /\ ~close)
   /\ row' = [IdleRow EXCEPT !.cancel = cancel, !.close = close, !.edit = edit]
   /\ pc' = "dir"
-  /\ UNCHANGED <<m, buf, prevC, sn, sf, winN, winF, hist>>
+  /\ UNCHANGED <<m, buf, prevC, sn, sf, winN, winF, hist, liq>>
 Dir(d) == /\ pc = "dir"
           /\ row' = [row EXCEPT !.entry.dir = d]
           /\ pc' = IF d = 0 THEN "apply" ELSE "r1"
-          /\ UNCHANGED <<m, buf, prevC, sn, sf, winN, winF, hist>>
+          /\ UNCHANGED <<m, buf, prevC, sn, sf, winN, winF, hist, liq>>
 R1(q, p) == /\ pc = "r1"
             /\ row' = [row EXCEPT !.entry.r1 = [q |-> q, p |-> p]]
             /\ pc' = IF TwoRows THEN "r2" ELSE "mode"
-            /\ UNCHANGED <<m, buf, prevC, sn, sf, winN, winF, hist>>
+            /\ UNCHANGED <<m, buf, prevC, sn, sf, winN, winF, hist, liq>>
 R2(p) == /\ pc = "r2"
          /\ (p # 0 => p # row.entry.r1.p)
          /\ row' = [row EXCEPT !.entry.r2 = IF p = 0 THEN NoRow ELSE [q |-> row.entry.r1.q, p |-> p]]
          /\ pc' = "mode"
-         /\ UNCHANGED <<m, buf, prevC, sn, sf, winN, winF, hist>>
-Mode(md) == /\ pc = "mode" /\ md \in Modes
-            /\ row' = [row EXCEPT !.entry.mode = md]
-            /\ pc' = IF md = "rel" THEN "dist" ELSE "exits"
-            /\ UNCHANGED <<m, buf, prevC, sn, sf, winN, winF, hist>>
+         /\ UNCHANGED <<m, buf, prevC, sn, sf, winN, winF, hist, liq>>
+Mode(md, hf) ==
+  /\ pc = "mode" /\ md \in Modes /\ (hf => Halves)
+  /\ row' = [row EXCEPT !.entry.mode = md, !.entry.half = hf]
+  /\ pc' = IF md = "rel" THEN "dist" ELSE "exits"
+  /\ UNCHANGED <<m, buf, prevC, sn, sf, winN, winF, hist, liq>>
 Dist(d) == /\ pc = "dist"
            /\ row' = [row EXCEPT !.entry.d = d]
            /\ pc' = "apply"
-           /\ UNCHANGED <<m, buf, prevC, sn, sf, winN, winF, hist>>
+           /\ UNCHANGED <<m, buf, prevC, sn, sf, winN, winF, hist, liq>>
 RowLo == IF row.entry.r2.q = 0 THEN row.entry.r1.p ELSE Min2(row.entry.r1.p, row.entry.r2.p)
 RowHi == IF row.entry.r2.q = 0 THEN row.entry.r1.p ELSE Max2(row.entry.r1.p, row.entry.r2.p)
 Exits(sl, tp) ==
@@ -77,7 +80,7 @@ Exits(sl, tp) ==
      \/ WrongSide
   /\ row' = [row EXCEPT !.entry.sl = sl, !.entry.tp = tp]
   /\ pc' = "apply"
-  /\ UNCHANGED <<m, buf, prevC, sn, sf, winN, winF, hist>>
+  /\ UNCHANGED <<m, buf, prevC, sn, sf, winN, winF, hist, liq>>
 \* both simulators consume the chunk (and the row at a boundary)
 Apply ==
   /\ pc = "apply"
@@ -88,6 +91,7 @@ Apply ==
      IN /\ sn' = [rn.s EXCEPT !.hooks = <<>>] /\ sf' = [rf.s EXCEPT !.hooks = <<>>] /\ winN' = rn.win /\ winF' = rf.win
         /\ hist' = Append(hist, [raw |-> buf, row |-> r])
         /\ prevC' = buf[Len(buf)].c
+        /\ liq' = (Boundary /\ r.close /\ r.entry.dir = 0)
   /\ m' = m + Chunk /\ buf' = <<>> /\ row' = IdleRow
   /\ pc' = IF m + Chunk >= NMin \/ ~Running(sn') THEN "done" ELSE "candle"
 
@@ -96,7 +100,7 @@ Next == \/ \E cd \in Candles : Candle(cd)
         \/ \E d \in {0, 1, -1} : Dir(d)
         \/ \E q \in Qtys, p \in Pxs : R1(q, p)
         \/ \E p \in 0..K : R2(p)
-        \/ \E md \in {"go", "open", "rel"} : Mode(md)
+        \/ \E md \in {"go", "open", "rel"}, hf \in BOOLEAN : Mode(md, hf)
         \/ \E d \in 1..(K - 1) : Dist(d)
         \/ \E sl \in Pxs, tp \in Pxs : Exits(sl, tp)
         \/ Apply
@@ -114,6 +118,8 @@ TradeOK(t) == /\ t.qty > 0 /\ t.closed >= t.opened
               /\ t.pnl = RSub(RMulI(RSub(t.exit, t.entry), IF t.type = "long" THEN t.qty ELSE -t.qty), t.fee)
 TradesOK == \A j \in DOMAIN sn.trades : TradeOK(sn.trades[j])
 FlatMeansNoExits == (AtChunkEnd /\ Running(sn) /\ sn.q = 0) => \A j \in DOMAIN sn.ords : ~sn.ords[j].ro
+\* liquidate() closes the position (C10: the exit the strategy asks for is submitted; here: and executed at the step)
+LiquidateWorks == (AtChunkEnd /\ liq /\ Running(sn)) => sn.q = 0
 NoModelError == sn.status \in {"run", "InsufficientMargin", "InvalidStrategy"} /\ sf.status \in {"run", "InsufficientMargin", "InvalidStrategy"}
 
 \* ---- export of finished behaviours (INVARIANT position)
